@@ -1,4 +1,6 @@
 """C13 — hash, HMAC and PBKDF2 equal the standard algorithms; streaming adapters are chunking-invariant."""
+import zlib
+
 from .. import gen
 from ..ref import bip32, hashes
 
@@ -12,7 +14,7 @@ ASSUMPTIONS = ["hashlib (OpenSSL) is the reference for the primitives; RIPEMD-16
 NSHARDS = {"quick": 16, "thorough": 32}
 BUDGET_S = {"quick": 200, "thorough": 1500}
 MIN_HITS = {
-    'quick': {"hash": 903, "hmac": 675, "pbkdf2": 147, "chunks": 5511, "mnemonic": 2, "reuse": 42},
+    'quick': {"hash": 903, "hmac": 675, "pbkdf2": 147, "chunks": 5642, "mnemonic": 2, "reuse": 42},
     'thorough': {"hash": 7203, "hmac": 5281, "pbkdf2": 237, "chunks": 79080, "mnemonic": 7},
 }
 FN = ["sha1", "sha256", "sha256d", "sha512", "ripemd160", "hash160"]
@@ -21,6 +23,12 @@ FN = ["sha1", "sha256", "sha256d", "sha512", "ripemd160", "hash160"]
 def selftest():
     hashes.selftest()
     bip32.selftest()
+    # hashlib's PBKDF2 (used only for the very large iteration counts) against the pure-Python reference
+    import hashlib
+
+    for fn in ("sha1", "sha256", "sha512"):
+        for pw, salt, rd, ol in ((b"", b"", 1, 20), (b"password", b"salt", 3, 65), (b"p" * 200, b"s" * 100, 7, 33)):
+            assert hashlib.pbkdf2_hmac(fn, pw, salt, rd, ol) == hashes.pbkdf2(fn, pw, salt, rd, ol), "hashlib PBKDF2 disagrees with the reference"
 
 
 def cases(ctx):
@@ -58,6 +66,12 @@ def cases(ctx):
                 if rd >= 1000 and ol not in (20, 33, 65, 200) and not t:
                     continue
                 yield {"k": "pbkdf2", "fn": fn, "password": gen.rbytes(r, [0, 1, 8, 63, 64, 65, 127, 128, 129, 200][(k + ol) % 10]).hex(), "salt": gen.rbytes(r, r.choice([0, 1, 8, 16, 64, 100])).hex(), "rounds": rd, "len": ol}
+    # very large iteration counts (a cap or a narrower integer type inside the loop shows only here); reference: hashlib's PBKDF2,
+    # itself cross-checked against the pure-Python reference in the self-test
+    big = [("sha1", 10_000_001, 20)] + ([("sha256", 16_777_217, 32), ("sha512", 4_194_305, 64), ("sha1", 20_000_003, 21)] if t else [])
+    for bi, (fn, rd, ol) in enumerate(big):
+        if S == (3 + bi) % N:
+            yield {"k": "pbkdf2", "fn": fn, "password": gen.rbytes(r, 8).hex(), "salt": gen.rbytes(r, 8).hex(), "rounds": rd, "len": ol}
     # password / salt lengths around the HMAC block sizes, for every PRF
     for fn in ("sha1", "sha256", "sha512"):
         for pl in [0, 1, 55, 56, 63, 64, 65, 111, 112, 127, 128, 129, 200]:
@@ -83,6 +97,9 @@ def cases(ctx):
                 yield {"k": "chunks", "kind": kind, "chunks": [m[:cut].hex(), m[cut:].hex()], "reverse": bool((cut + L) & 1)}
         for kind in kinds[3:]:
             yield {"k": "chunks", "kind": kind, "chunks": [m.hex()], "reverse": bool(L & 1)}
+        for rev in (False, True):
+            cut = r.randrange(L + 1)
+            yield {"k": "chunks", "kind": "hash160_new", "chunks": [m[:cut].hex(), m[cut:].hex()], "reverse": rev}
     if S == 0:
         ctx.exhaustive.append("all two-way splits of one random input of every length 0..%d through Sha256d/Sha256r/Hash160 adapters" % (130 if t else 70))
     # the same adapter object reused after finalize_reset / reset (the signers reuse their digest objects)
@@ -132,6 +149,9 @@ def judge(ctx, case):
         req = {"op": "pbkdf2", "fn": case["fn"], "password": case["password"], "rounds": case["rounds"], "len": case["len"]}
         if case["salt"] is not None:
             req["salt"] = case["salt"]
+            if zlib.crc32(case["password"].encode() + case["salt"].encode()) % 3 == 0:
+                req["via_impl"] = True  # KDF::pbkdf2_impl, the public inner function
+                ctx.hit("pbkdf2_via_impl")
         r = ctx.call(req)
         ctx.ev()
         if case["salt"] is None:
@@ -143,7 +163,13 @@ def judge(ctx, case):
             if r["ok"]["hash"] != exp:
                 ctx.viol("PBKDF2-%s with a library-chosen salt differs from the reference computed with the reported salt" % case["fn"], {})
             return
-        exp = hashes.pbkdf2(case["fn"], bytes.fromhex(case["password"]), bytes.fromhex(case["salt"]), case["rounds"], case["len"]).hex()
+        if case["rounds"] > 100000:
+            import hashlib
+
+            ctx.hit("pbkdf2_rounds>10M")
+            exp = hashlib.pbkdf2_hmac(case["fn"], bytes.fromhex(case["password"]), bytes.fromhex(case["salt"]), case["rounds"], case["len"]).hex()
+        else:
+            exp = hashes.pbkdf2(case["fn"], bytes.fromhex(case["password"]), bytes.fromhex(case["salt"]), case["rounds"], case["len"]).hex()
         if r.get("ok", {}).get("hash") != exp:
             ctx.viol("PBKDF2-%s differs from the reference" % case["fn"], {"got": str(r.get("ok", r.get("panic")))[:200], "exp": exp})
         elif r["ok"]["salt"] != case["salt"]:
@@ -155,7 +181,7 @@ def judge(ctx, case):
             ctx.nontrivial()
         r = ctx.call({"op": "digest_chunks", "kind": case["kind"], "chunks": case["chunks"], "reverse": case["reverse"], "reuse": case.get("reuse", False)})
         ctx.ev()
-        fn = {"sha256d": hashes.sha256d, "sha256r": hashes.sha256, "hash160": hashes.hash160, "signing_sha256": hashes.sha256, "signing_sha256d": hashes.sha256d}[case["kind"]]
+        fn = {"sha256d": hashes.sha256d, "sha256r": hashes.sha256, "hash160": hashes.hash160, "hash160_new": hashes.hash160, "signing_sha256": hashes.sha256, "signing_sha256d": hashes.sha256d}[case["kind"]]
         exp = fn(m)
         if case["reverse"]:
             exp = exp[::-1]
